@@ -7,7 +7,8 @@ NoTexts  == {}
 F3 == [bq |-> FALSE, ex |-> FALSE, pp |-> FALSE]
 FewTexts == {F3, [F3 EXCEPT !.bq = TRUE], [F3 EXCEPT !.ex = TRUE], [F3 EXCEPT !.pp = TRUE]}
 TF == [mode |-> 384, fresh |-> TRUE]
-OutcomesMC == {[ns |-> ns, tm |-> tm, dv |-> dv, d |-> d, fds |-> 0] : ns \in 0 .. 1, tm \in {<<>>, <<TF>>}, dv \in 0 .. 1, d \in {0, 25}}
+OutcomesMC == {[ns |-> ns, tm |-> tm, dv |-> dv, d |-> d, fds |-> 0, cwd |-> TRUE] : ns \in 0 .. 1, tm \in {<<>>, <<TF>>}, dv \in 0 .. 1, d \in {0, 25}}
 ObsNone(op, args, ret, post) == TRUE
 Bounded == ntemps <= 2
+EnvQuiet == cwdok /\ prog = 1          \* registration sweeps do not need the environment actions
 ================================================================================
